@@ -6,10 +6,15 @@ VERIF=${VERIF_ROOT:-/verif}
 cd "$VERIF"
 if [ "${1:-}" = replay ]; then
   B=$("$VERIF/scripts/build.sh") || exit 2
-  exec "$B/worker" replay "$2" "$3"
+  W=worker
+  case "$2" in C18) W=worker-plain;; esac
+  exec "$B/$W" replay "$2" "$3"
 fi
 PROP=$1; TIER=${2:-${VERIF_TIER:-quick}}
 case "$PROP" in C09|C13) export VERIF_NEED_RACE=1;; esac
 B=$("$VERIF/scripts/build.sh") || { echo "ENGINE-ERROR property=$PROP build failed"; exit 2; }
 export VERIF_BUILD_DIR="$B"
-exec "$B/worker" check "$PROP" --tier "$TIER"
+W=worker
+# C18 exercises the real Open on the real file system: plain (uninstrumented) build
+case "$PROP" in C18) W=worker-plain;; esac
+exec "$B/$W" check "$PROP" --tier "$TIER"
